@@ -118,3 +118,22 @@ def _rpow(ex, x, y):
 @spec('sqrt_')
 def _sqrt(ex, x):
     return tm.app('sqrt', (tm.to_real(to_term(x)),), REAL)
+
+
+@spec('kappa0')
+def _kappa0(ex):
+    return ex.kappa_entry
+
+
+@spec('sum_')
+def _sum(ex, a, n):
+    t = a.term if isinstance(a, Arr) else a
+    return tm.app('sum', (t, to_term(n)), REAL)
+
+
+def draw_uniform(ex):
+    """one element of the random stream; advances the ghost position"""
+    ex.note_write(('K',), 'kappa')
+    u = tm.app('U', (ex.kappa,), REAL)
+    ex.kappa = tm.add(ex.kappa, tm.mk_int(1))
+    return u
